@@ -86,6 +86,39 @@ func emitDoc(out *Out, g *DocGen, root *ANode, p *Presentation, hs HSpec, op str
 	out.Emit(c)
 }
 
+// safe mode switched off, and values the hasher may refuse (empty strings): whatever the mode, a successful merklization holds
+// every fact of the document - the mode is about undefined properties, not about values
+func emitUnsafeModeDoc(out *Out, r *Rng) {
+	g := NewDocGen(r, 1+r.Intn(2))
+	g.emptyOK = true
+	root := g.node(g.sch.Root, 0, r.Bool())
+	hs := hPoseidon()
+	doc := g.Render(root, randomPresentation(r))
+	loader := &mapLoader{docs: map[string][]byte{g.sch.URL: g.ContextDoc()}}
+	var facts []Fact
+	factsOf(root, nil, nil, &facts)
+	c := Case{Op: "none", In: J{"doc": string(doc), "safe": false}, Tags: []string{"unsafe-mode", "h:" + hs.Name}, NT: true}
+	run := runMerklize(doc, hs, loader, false, withSafe(false))
+	var why []string
+	if run.Err != nil {
+		c.Impl = errJ(run.Err)
+		c.Tags = append(c.Tags, "rejected")
+	} else {
+		var ents []merklize.RDFEntry
+		for _, e := range run.Mz.VerifEntries() {
+			ents = append(ents, e)
+		}
+		c.Impl = okJ(len(ents))
+		if len(ents) != len(facts) {
+			why = append(why, fmt.Sprintf("with safe mode off the merklizer holds %d entries, the document has %d facts", len(ents), len(facts)))
+		} else {
+			factsPredicate(ents, facts, &why)
+		}
+	}
+	c.Prop = propOf(why)
+	out.Emit(c)
+}
+
 // ---------- dataset-level stream ----------
 
 func randDataset(r *Rng) (*ld.RDFDataset, []string) {
@@ -425,6 +458,9 @@ func genC01(out *Out, r *Rng, tier string, n int, shard int) {
 		if i%5 == 2 {
 			// two facts under one path: rejected, or else nothing may be merged (entries == facts == leaves)
 			emitCollisionDoc(out, g, r, pickDocHasher(r))
+		}
+		if i%4 == 1 {
+			emitUnsafeModeDoc(out, r)
 		}
 		for k := 0; k < 6; k++ {
 			emitDataset(out, r, pickDocHasher(r))
